@@ -32,7 +32,9 @@ func newNode() *node { return &node{children: map[string]*node{}} }
 
 // Sigma is the name alphabet of C01 (one representative per character class) plus names that collide
 // with generated names.
-var Sigma = []string{"a", "b", "pet", "Pet", "pet owner", "ü", "a/b", "t~x", "q?", "h#", "b[0]", "{c}", "a/b c~d", "ü #?", "al~1", "petOwner", "PetOwner", "getPOKBody", "thingOAIGen", "ThingOAIGen"}
+var Sigma = []string{"a", "b", "pet", "Pet", "pet owner", "ü", "a/b", "t~x", "q?", "h#", "b[0]", "{c}", "a/b c~d", "ü #?", "al~1", "petOwner", "PetOwner", "getPOKBody", "thingOAIGen", "ThingOAIGen",
+	// a URL-reserved character that query-unescaping and path-unescaping treat differently (appended: SigmaCore is a prefix)
+	"a+b"}
 
 // SigmaCore is Sigma without the generated-name look-alikes.
 var SigmaCore = Sigma[:15]
